@@ -1101,6 +1101,32 @@ fn fixed_multi_job() -> Vec<String> {
     bodies.iter().map(|jobs| api_op("/symbolicate/v5", &format!("{{\"jobs\":[{}]}}", jobs.join(",")))).collect()
 }
 
+/// error messages / unknown paths whose JSON text is compared byte for byte with `JT.errorJson`
+pub fn json_text_ops(rng: &mut Rng, n: usize) -> Vec<String> {
+    (0..n)
+        .map(|_| {
+            let mut m = match rng.below(4) {
+                0 => ps(rng, WEIRD_STRINGS).to_string(),
+                1 => ps(rng, ODD_PATHS).to_string(),
+                2 => ps(rng, PATHS).to_string(),
+                _ => String::new(),
+            };
+            for _ in 0..rng.below(6) {
+                let idxs: Vec<usize> = m.char_indices().map(|(i, _)| i).chain(std::iter::once(m.len())).collect();
+                let at = *rng.pick(&idxs);
+                let c = match rng.below(6) {
+                    0 => char::from_u32(rng.below(0x20) as u32).unwrap(),
+                    1 => *rng.pick(&['"', '\\', '/', '\u{7f}', '\u{80}', '\u{2028}', '\u{ffff}', '\u{10ffff}']),
+                    2 => *rng.pick(&['é', '€', '😀']),
+                    _ => char::from_u32(0x20 + rng.below(0x5f) as u32).unwrap(),
+                };
+                m.insert(at, c);
+            }
+            if rng.chance(1, 2) { format!("errjson {}", hx(&m)) } else { format!("badurl {}", hx(&m)) }
+        })
+        .collect()
+}
+
 /// a case around a deep-inline `.sym`: value-for-value lookups (`bpmap`), then the same file through `lookup`
 /// and `/symbolicate/v5`
 pub fn deep_case(rng: &mut Rng, tier: Tier) -> Vec<String> {
@@ -1237,6 +1263,19 @@ pub fn fixed_cases(tier: Tier) -> Vec<Case> {
         ops.push(format!("debugid {}", hx(s)));
     }
     chunked("paths-depth", ops, 20, &mut out);
+    // (6b) the hand-built error object: every single byte 0..=0x7f as a message and inside a path, multi-byte characters
+    let mut ops = Vec::new();
+    for c in 0u8..=0x7f {
+        let s = (c as char).to_string();
+        ops.push(format!("errjson {}", hx(&s)));
+        ops.push(format!("errjson {}", hx(&format!("a{s}b{s}"))));
+        ops.push(format!("badurl {}", hx(&format!("/{s}x"))));
+    }
+    for s in WEIRD_STRINGS.iter().chain(ODD_PATHS.iter()).chain(["/symbolicate/v5", "/source/v1", "/asm/v1", "\u{80}", "\u{7ff}", "\u{800}", "\u{2028}", "\u{ffff}", "\u{10000}", "\u{10ffff}"].iter()) {
+        ops.push(format!("errjson {}", hx(s)));
+        ops.push(format!("badurl {}", hx(s)));
+    }
+    chunked("json-text", ops, 64, &mut out);
     // (7) multi-job requests built by hand
     chunked("multi-job", fixed_multi_job(), 4, &mut out);
     // (8) `DebugId::from_breakpad` / the request's debugId: a 2/3/4-byte character at every offset of every length
@@ -1327,6 +1366,7 @@ pub fn generate(rng: &mut Rng, tier: Tier, _index: u64) -> Vec<String> {
             ops.extend(path_ops(rng, 4));
             ops.extend(asmreq_ops(rng, 4));
             ops.push(format!("debugid {}", hx(&random_id(rng))));
+            ops.extend(json_text_ops(rng, 3));
             ops
         }
         7 => bp_ops(rng, 12),
